@@ -1,12 +1,349 @@
-use crate::util::Report;
+//! C13 — wire formats are the RFC 6330 layouts and round-trip losslessly.
+
+use crate::reference as rf;
+use crate::util::{
+    catch, run_sharded, simple_failure, Failure, Report, SplitMix, Stats, SubOutcome,
+};
 use crate::Ctx;
-use serde_json::Value;
+use proptest::prelude::*;
+use raptorq::{EncodingPacket, ObjectTransmissionInformation, PayloadId};
+use rayon::prelude::*;
+use serde_json::{json, Value};
+use std::time::Instant;
 
-pub fn run(_ctx: &Ctx, _rep: &mut Report) {
-    eprintln!("not implemented yet");
-    std::process::exit(2);
+fn check_payload_id(b: [u8; 4]) -> Result<(), String> {
+    let (sbn, esi) = rf::parse_payload_id(&b);
+    let p = PayloadId::deserialize(&b);
+    if p.source_block_number() != sbn || p.encoding_symbol_id() != esi {
+        return Err(format!(
+            "deserialize({b:?}) gives SBN={} ESI={}, RFC 3.2 layout gives SBN={sbn} ESI={esi}",
+            p.source_block_number(),
+            p.encoding_symbol_id()
+        ));
+    }
+    let s = p.serialize();
+    if s != b {
+        return Err(format!("serialize(deserialize({b:?})) = {s:?}"));
+    }
+    let q = PayloadId::new(sbn, esi);
+    if q != p {
+        return Err(format!("PayloadId::new({sbn},{esi}) != deserialize({b:?})"));
+    }
+    let s2 = q.serialize();
+    if s2 != rf::payload_id_bytes(sbn, esi) {
+        return Err(format!(
+            "new({sbn},{esi}).serialize() = {s2:?}, RFC layout is {:?}",
+            rf::payload_id_bytes(sbn, esi)
+        ));
+    }
+    Ok(())
 }
 
-pub fn replay(_sub: &str, _case: &Value) -> Result<(), String> {
-    Err("not implemented".into())
+fn payload_ids_exhaustive() -> SubOutcome {
+    let started = Instant::now();
+    // 2^16 chunks of 2^16 ids
+    let results: Vec<Option<[u8; 4]>> = (0u32..65536)
+        .into_par_iter()
+        .map(|hi| {
+            for lo in 0u32..65536 {
+                let v = (hi << 16) | lo;
+                let b = std::hint::black_box(v.to_be_bytes());
+                // inline fast path of check_payload_id (same predicates)
+                let p = PayloadId::deserialize(&b);
+                let esi = ((b[1] as u32) * 65536) + (b[2] as u32) * 256 + b[3] as u32;
+                if p.source_block_number() != b[0]
+                    || p.encoding_symbol_id() != esi
+                    || p.serialize() != b
+                {
+                    return Some(b);
+                }
+            }
+            None
+        })
+        .collect();
+    let mut st = Stats::new();
+    st.evals(1u64 << 32);
+    // ESI >= 2^16 (all three ESI bytes matter): 256 * (2^24 - 2^16) ids, each visited once
+    st.nt_enumerated(256 * ((1u64 << 24) - (1u64 << 16)));
+    st.sample(|| json!({"bytes": [7, 1, 2, 3], "sbn": 7, "esi": 66051}));
+    let mut failures = vec![];
+    if let Some(b) = results.into_iter().flatten().next() {
+        let msg = check_payload_id(b).err().unwrap_or_else(|| "mismatch".into());
+        failures.push(simple_failure(
+            "payload_id",
+            msg,
+            "payload_id:layout".into(),
+            json!({"bytes": b.to_vec()}),
+        ));
+    }
+    // constructor path + refusal of ESIs beyond 24 bits, on a stratified subset
+    let mut rng = SplitMix::new(77);
+    for i in 0..200_000u32 {
+        let (sbn, esi) = if i < 70_000 {
+            ((i % 256) as u8, i)
+        } else {
+            (rng.below(256) as u8, rng.below(1 << 24) as u32)
+        };
+        st.eval();
+        if let Err(m) = check_payload_id(rf::payload_id_bytes(sbn, esi)) {
+            failures.push(simple_failure(
+                "payload_id",
+                m,
+                "payload_id:layout".into(),
+                json!({"bytes": rf::payload_id_bytes(sbn, esi).to_vec()}),
+            ));
+            break;
+        }
+    }
+    for esi in [1u32 << 24, (1 << 24) + 1, u32::MAX] {
+        st.eval();
+        if catch(|| PayloadId::new(0, esi)).is_ok() {
+            failures.push(simple_failure(
+                "payload_id_refusal",
+                format!("PayloadId::new accepted a {esi} ESI beyond 24 bits"),
+                "payload_id:refusal".into(),
+                json!({"esi": esi}),
+            ));
+        }
+    }
+    failures.truncate(1);
+    SubOutcome {
+        stats: st,
+        failures,
+        wall_s: started.elapsed().as_secs_f64(),
+    }
 }
+
+#[derive(Debug, Clone)]
+struct PacketCase {
+    sbn: u8,
+    esi: u32,
+    len: usize,
+    seed: u64,
+}
+
+fn packet_strategy() -> impl Strategy<Value = PacketCase> {
+    (
+        any::<u8>(),
+        prop_oneof![0u32..300, 0u32..(1 << 24), (1u32 << 24) - 300..(1 << 24), 65000u32..66000],
+        prop_oneof![4 => 0usize..=70, 1 => Just(1280usize), 1 => Just(65535usize), 1 => 0usize..3000],
+        any::<u64>(),
+    )
+        .prop_map(|(sbn, esi, len, seed)| PacketCase { sbn, esi, len, seed })
+}
+
+fn check_packet(c: &PacketCase, st: &mut Stats) -> Result<(), String> {
+    let payload = SplitMix::new(c.seed).bytes(c.len);
+    let pkt = EncodingPacket::new(PayloadId::new(c.sbn, c.esi), payload.clone());
+    let wire = pkt.serialize();
+    let mut want = rf::payload_id_bytes(c.sbn, c.esi).to_vec();
+    want.extend_from_slice(&payload);
+    st.class_if(c.esi >= 65536, "esi>=2^16");
+    st.class_if(c.len == 0, "empty payload");
+    if c.esi >= 65536 {
+        st.nt(crate::util::fnv_u64s(&[c.sbn as u64, c.esi as u64, c.len as u64]));
+    }
+    st.sample(|| json!({"sbn": c.sbn, "esi": c.esi, "payload_len": c.len, "wire_prefix": wire[..wire.len().min(8)].to_vec()}));
+    if wire != want {
+        return Err(format!(
+            "packet serialisation differs from payload-id || payload (first 8 bytes {:?} vs {:?})",
+            &wire[..wire.len().min(8)],
+            &want[..want.len().min(8)]
+        ));
+    }
+    let back = EncodingPacket::deserialize(&wire);
+    if back != pkt {
+        return Err("deserialize(serialize(packet)) != packet".into());
+    }
+    if back.payload_id().source_block_number() != c.sbn
+        || back.payload_id().encoding_symbol_id() != c.esi
+        || back.data() != &payload[..]
+    {
+        return Err("accessors of the parsed packet differ from the inputs".into());
+    }
+    let (id, data) = back.split();
+    if id != PayloadId::new(c.sbn, c.esi) || data != payload {
+        return Err("split() does not return the id and payload".into());
+    }
+    Ok(())
+}
+
+#[derive(Debug, Clone)]
+struct OtiBuf {
+    b: [u8; 12],
+}
+
+fn field_byte() -> impl Strategy<Value = u8> {
+    prop_oneof![3 => any::<u8>(), 1 => Just(0u8), 1 => Just(1u8), 1 => Just(255u8), 1 => Just(254u8), 1 => Just(128u8)]
+}
+
+fn oti_buf_strategy() -> impl Strategy<Value = OtiBuf> {
+    proptest::collection::vec(field_byte(), 12).prop_map(|v| {
+        let mut b = [0u8; 12];
+        b.copy_from_slice(&v);
+        OtiBuf { b }
+    })
+}
+
+fn check_oti_buf(c: &OtiBuf, st: &mut Stats) -> Result<(), String> {
+    let b = c.b;
+    let (f, t, z, n, al) = rf::parse_oti(&b);
+    let o = ObjectTransmissionInformation::deserialize(&b);
+    st.class_if(f >= 1 << 32, "F>=2^32");
+    st.class_if(b[5] != 0, "reserved byte non-zero");
+    if f >= 1 << 32 {
+        st.nt(crate::util::fnv64(&b));
+    }
+    st.sample(|| json!({"bytes": b.to_vec(), "F": f, "T": t, "Z": z, "N": n, "Al": al}));
+    if o.transfer_length() != f
+        || o.symbol_size() != t
+        || o.source_blocks() != z
+        || o.sub_blocks() != n
+        || o.symbol_alignment() != al
+    {
+        return Err(format!(
+            "deserialize({b:?}) = (F={},T={},Z={},N={},Al={}), RFC 3.3.2/3.3.3 layout gives (F={f},T={t},Z={z},N={n},Al={al})",
+            o.transfer_length(), o.symbol_size(), o.source_blocks(), o.sub_blocks(), o.symbol_alignment()
+        ));
+    }
+    let s = o.serialize();
+    let mut want = b;
+    want[5] = 0;
+    if s != want {
+        return Err(format!("serialize(deserialize({b:?})) = {s:?}, expected {want:?} (reserved byte zero)"));
+    }
+    if ObjectTransmissionInformation::deserialize(&s) != o {
+        return Err("deserialize(serialize(x)) != x".into());
+    }
+    if s != rf::oti_bytes(f, t, z, n, al) {
+        return Err("serialize differs from the reference layout".into());
+    }
+    Ok(())
+}
+
+#[derive(Debug, Clone)]
+struct OtiVal {
+    f: u64,
+    t: u16,
+    z: u8,
+    n: u16,
+    al: u8,
+}
+
+/// Values constructible through `new` (within its documented limits).
+fn oti_val_strategy() -> impl Strategy<Value = OtiVal> {
+    (
+        prop_oneof![1u16..=64, 1u16..=65535, Just(65535u16), Just(1u16)],
+        prop_oneof![1u8..=255, Just(1u8), Just(255u8)],
+        any::<u16>(),
+        prop_oneof![Just(1u8), Just(2u8), Just(4u8), Just(8u8), 1u8..=255],
+        any::<u64>(),
+        0u8..4,
+    )
+        .prop_map(|(t, z, n, al, r, mode)| {
+            // make T a multiple of Al
+            let al = if t % al as u16 == 0 { al } else { 1 };
+            let cap = (56403u64 * z as u64 * t as u64).min(942574504275);
+            let f = match mode {
+                0 => cap,
+                1 => r % (cap + 1),
+                2 => cap.saturating_sub(r % 3),
+                _ => r % (cap.min(1 << 20) + 1),
+            };
+            OtiVal { f, t, z, n, al }
+        })
+}
+
+fn check_oti_val(c: &OtiVal, st: &mut Stats) -> Result<(), String> {
+    let o = ObjectTransmissionInformation::new(c.f, c.t, c.z, c.n, c.al);
+    st.class_if(c.f >= 1 << 32, "F>=2^32");
+    if c.f >= 1 << 32 {
+        st.nt(crate::util::fnv_u64s(&[c.f, c.t as u64, c.z as u64, c.n as u64, c.al as u64]));
+    }
+    st.sample(|| json!({"F": c.f, "T": c.t, "Z": c.z, "N": c.n, "Al": c.al}));
+    let s = o.serialize();
+    let want = rf::oti_bytes(c.f, c.t, c.z, c.n, c.al);
+    if s != want {
+        return Err(format!("serialize(new({c:?})) = {s:?}, RFC layout is {want:?}"));
+    }
+    let back = ObjectTransmissionInformation::deserialize(&s);
+    if back != o {
+        return Err(format!("deserialize(serialize(new({c:?}))) differs"));
+    }
+    Ok(())
+}
+
+pub fn run(ctx: &Ctx, rep: &mut Report) {
+    rep.rule = "payload IDs: all 2^32 four-byte buffers (exhaustive) parsed and re-serialised against the RFC 3.2 layout, plus the constructor path; packets: generated (SBN, ESI, payload length 0..=70 / 1280 / 65535 / <3000, content) checked as id||payload both ways; transmission information: generated 12-byte buffers biased to field boundaries and generated values built through new(), against reference (de)serialisers written from RFC 3.3.2/3.3.3. Non-trivial = ESI >= 2^16 or F >= 2^32; distinct by (field values).".into();
+    rep.exhaustive = true;
+    rep.assumptions.push("exhaustive only for the payload-ID sub-check; packet and OTI sub-checks are sampled".into());
+    rep.absorb("payload_id", payload_ids_exhaustive());
+    let n = ctx.tier.pick(200_000u64, 4_000_000);
+    rep.absorb(
+        "packet",
+        run_sharded(
+            "C13", "packet", ctx.seed, n / 4, 16, packet_strategy, check_packet,
+            |c| json!({"sbn": c.sbn, "esi": c.esi, "len": c.len, "seed": c.seed}),
+            |_, m| format!("packet:{}", m.split(' ').next().unwrap_or("")),
+        ),
+    );
+    rep.absorb(
+        "oti_buf",
+        run_sharded(
+            "C13", "oti_buf", ctx.seed, n, 16, oti_buf_strategy, check_oti_buf,
+            |c| json!({"bytes": c.b.to_vec()}),
+            |_, m| format!("oti_buf:{}", m.split('(').next().unwrap_or("")),
+        ),
+    );
+    rep.absorb(
+        "oti_val",
+        run_sharded(
+            "C13", "oti_val", ctx.seed, n, 16, oti_val_strategy, check_oti_val,
+            |c| json!({"f": c.f, "t": c.t, "z": c.z, "n": c.n, "al": c.al}),
+            |_, m| format!("oti_val:{}", m.split('(').next().unwrap_or("")),
+        ),
+    );
+}
+
+pub fn replay(sub: &str, case: &Value) -> Result<(), String> {
+    let mut st = Stats::new();
+    match sub {
+        "payload_id" => {
+            let v: Vec<u8> = case["bytes"].as_array().unwrap().iter().map(|x| x.as_u64().unwrap() as u8).collect();
+            check_payload_id([v[0], v[1], v[2], v[3]])
+        }
+        "payload_id_refusal" => {
+            let esi = case["esi"].as_u64().unwrap() as u32;
+            if catch(|| PayloadId::new(0, esi)).is_ok() { Err("accepted".into()) } else { Ok(()) }
+        }
+        "packet" => check_packet(
+            &PacketCase {
+                sbn: case["sbn"].as_u64().unwrap() as u8,
+                esi: case["esi"].as_u64().unwrap() as u32,
+                len: case["len"].as_u64().unwrap() as usize,
+                seed: case["seed"].as_u64().unwrap(),
+            },
+            &mut st,
+        ),
+        "oti_buf" => {
+            let v: Vec<u8> = case["bytes"].as_array().unwrap().iter().map(|x| x.as_u64().unwrap() as u8).collect();
+            let mut b = [0u8; 12];
+            b.copy_from_slice(&v);
+            check_oti_buf(&OtiBuf { b }, &mut st)
+        }
+        "oti_val" => check_oti_val(
+            &OtiVal {
+                f: case["f"].as_u64().unwrap(),
+                t: case["t"].as_u64().unwrap() as u16,
+                z: case["z"].as_u64().unwrap() as u8,
+                n: case["n"].as_u64().unwrap() as u16,
+                al: case["al"].as_u64().unwrap() as u8,
+            },
+            &mut st,
+        ),
+        _ => Err(format!("unknown sub-check {sub}")),
+    }
+}
+
+#[allow(dead_code)]
+fn _unused(_: Failure) {}
